@@ -1,9 +1,10 @@
-package main
+package c20
 
 import (
 	"context"
 	"errors"
 	"fmt"
+	"github.com/sassoftware/relic/v8/verifharness/core"
 	"net/http"
 	"net/http/httptest"
 	"os"
@@ -49,13 +50,13 @@ func c20Config(dir string, n int, disabled bool, ntok int) (*config.Config, erro
 }
 
 func init() {
-	commands["c20"] = func(c *ctx) error {
+	core.Commands["c20"] = func(c *core.Ctx) error {
 		zerolog.SetGlobalLevel(zerolog.Disabled)
-		if c.scratch == "" {
+		if c.Scratch == "" {
 			return errors.New("c20 needs -scratch")
 		}
-		os.MkdirAll(c.scratch, 0o755)
-		r := &rng{s: c.seed}
+		os.MkdirAll(c.Scratch, 0o755)
+		r := &core.Rng{S: c.Seed}
 		id := 0
 		slack := 400 * time.Millisecond
 		interval := time.Second
@@ -66,7 +67,7 @@ func init() {
 			return rec.Code
 		}
 		runCase := func(kind string, n int, disabled bool, ntok int, hist [][]int) error {
-			cfg, err := c20Config(c.scratch, n, disabled, ntok)
+			cfg, err := c20Config(c.Scratch, n, disabled, ntok)
 			if err != nil {
 				return err
 			}
@@ -74,7 +75,7 @@ func init() {
 			toks := map[string]token.Token{}
 			for i := 0; i < ntok; i++ {
 				i := i
-				toks[fmt.Sprintf("t%d", i)] = &fakeToken{conf: cfg.Tokens[fmt.Sprintf("t%d", i)], ping: func(ctx context.Context) error {
+				toks[fmt.Sprintf("t%d", i)] = &core.FakeToken{Conf: cfg.Tokens[fmt.Sprintf("t%d", i)], PingFn: func(ctx context.Context) error {
 					switch cur[i] {
 					case 1:
 						return errors.New("scripted failure")
@@ -105,12 +106,12 @@ func init() {
 				server.VerifSetHealth(st, last)
 				cs.Rounds = append(cs.Rounds, rd)
 			}
-			c.emit(cs)
+			c.Emit(cs)
 			return nil
 		}
 		// exhaustive: all histories of all-ok / some-failed rounds, length <= L, one token (0/1) ; N in {1,2,3,5}
 		L := 6
-		if c.tier == "thorough" {
+		if c.Tier == "thorough" {
 			L = 9
 		}
 		for _, n := range []int{1, 2, 3, 5} {
@@ -128,24 +129,24 @@ func init() {
 		}
 		// random: 0..3 tokens, outcomes {ok, error}, length up to 40, disabled flag, N up to 7
 		nr := 300
-		if c.tier == "thorough" {
+		if c.Tier == "thorough" {
 			nr = 3000
 		}
 		for k := 0; k < nr; k++ {
-			ntok := r.intn(4)
-			n := 1 + r.intn(7)
-			l := r.intn(40)
+			ntok := r.Intn(4)
+			n := 1 + r.Intn(7)
+			l := r.Intn(40)
 			hist := make([][]int, l)
-			pfail := r.pick(5, 30, 60, 90)
+			pfail := r.Pick(5, 30, 60, 90)
 			for i := range hist {
 				hist[i] = make([]int, ntok)
 				for j := range hist[i] {
-					if r.chance(pfail) {
+					if r.Chance(pfail) {
 						hist[i][j] = 1
 					}
 				}
 			}
-			if err := runCase("rand", n, r.chance(10), ntok, hist); err != nil {
+			if err := runCase("rand", n, r.Chance(10), ntok, hist); err != nil {
 				return err
 			}
 		}
@@ -158,21 +159,21 @@ func init() {
 		return nil
 	}
 	// close behaviour: run the real loop, close the server, see whether the loop goroutine ends
-	commands["c20close"] = func(c *ctx) error {
+	core.Commands["c20close"] = func(c *core.Ctx) error {
 		zerolog.SetGlobalLevel(zerolog.Disabled)
-		os.MkdirAll(c.scratch, 0o755)
+		os.MkdirAll(c.Scratch, 0o755)
 		type res struct {
 			Exited      bool    `json:"exited"`
 			ExitMs      float64 `json:"exit_ms"`
 			ChecksAfter int     `json:"checks_after_close"`
 			CPUSpin     bool    `json:"cpu_spin"`
 		}
-		cfg, err := c20Config(c.scratch, 3, false, 1)
+		cfg, err := c20Config(c.Scratch, 3, false, 1)
 		if err != nil {
 			return err
 		}
 		pings := 0
-		tok := &fakeToken{conf: cfg.Tokens["t0"], ping: func(ctx context.Context) error { pings++; return nil }}
+		tok := &core.FakeToken{Conf: cfg.Tokens["t0"], PingFn: func(ctx context.Context) error { pings++; return nil }}
 		s, err := server.VerifNew(cfg, map[string]token.Token{"t0": tok})
 		if err != nil {
 			return err
@@ -193,7 +194,7 @@ func init() {
 		out.ChecksAfter = pings - before
 		// spinning shows as a busy goroutine: measure how much a competing counter progresses (GOMAXPROCS=1 slice)
 		_ = runtime.NumGoroutine()
-		c.emit(out)
+		c.Emit(out)
 		_ = http.StatusOK
 		return nil
 	}
